@@ -788,7 +788,7 @@ End Construct.
 
 (* what the libraries compute; the theorems hold for every choice (with [ext_wf] where stated) *)
 Record externals := {
-  x_regex_find : bytes -> bytes -> option (list Z);   (* Regexp.FindStringSubmatchIndex(pattern)(value) *)
+  x_regex_find : bytes -> nat -> bytes -> option (list Z);   (* FindStringSubmatchIndex of the pattern (with n groups incl. group 0) on the value *)
   x_regex_replace : bytes -> bytes -> bytes -> bytes;
   x_regex_match : bytes -> bytes -> bool;
   x_glob_match : bytes -> bytes -> bool;
@@ -895,7 +895,7 @@ Fixpoint run_t (nc : nat) (t : rtransform) (f : fields) : outcome (fields * bool
          end
   | RExtract key pattern subs =>
     let* v := fget f key in
-    match x_regex_find x pattern v with
+    match x_regex_find x pattern (length subs) v with
     | None => Ok (f, true)
     | Some idxs => let* f' := run_captures subs 0%nat idxs v f in Ok (f', true)
     end
@@ -1084,7 +1084,7 @@ Fixpoint chain_safe (nf : Z) (ch : list rrewriter) : bool :=
 Definition serializer_safe (nf : Z) (s : rserializer) : bool :=
   match s with
   | RSerFluentd nmask env chains =>
-    (Z.of_nat nmask <=? nf) && forallb (fun l => Nat.ltb l nmask) env && forallb (chain_safe nf) chains
+    (Z.of_nat nmask <=? nf) && forallb (fun l => Z.of_nat l <? Z.of_nat nmask) env && forallb (chain_safe nf) chains
   | RSerDatadog nmask => (Z.of_nat nmask <=? nf)
   end.
 
